@@ -7,7 +7,10 @@ import sys
 import time
 
 VERIF = os.path.dirname(os.path.dirname(os.path.dirname(os.path.abspath(__file__))))
-EVIDENCE_DIR = os.path.join(VERIF, "evidence")
+# evidence of runs against a scratch copy (VERIF_REPO=..., used for mutation self-tests) must never overwrite the
+# committed evidence of /repo itself
+_scratch = os.path.abspath(os.environ.get("VERIF_REPO", "/repo")) != "/repo"
+EVIDENCE_DIR = os.path.join(VERIF, ".build", "evidence-scratch") if _scratch else os.path.join(VERIF, "evidence")
 REPLAY_RUN_DIR = os.path.join(VERIF, ".build", "replay")
 REPLAY_DIR = os.path.join(VERIF, "replay")
 KNOWN_FILE = os.path.join(VERIF, "known_findings.json")
